@@ -35,6 +35,9 @@ def _directive(e: ast.AST, date: str) -> T.Optional[str]:
         if isinstance(inner, ast.Call) and isinstance(inner.func, ast.Attribute) and inner.func.attr == "strftime" and unparse(inner.func.value) == date:
             d = const_str(inner.args[0]) if inner.args else None
             if d and d.startswith("%") and len(d) == 2:
+                base = e.args[1] if len(e.args) > 1 else next((k.value for k in e.keywords if k.arg == "base"), None)
+                if base is not None and not (isinstance(base, ast.Constant) and base.value == 10):
+                    return f"{d[1]} read in base {unparse(base)}"
                 return d[1]
     return None
 
